@@ -45,8 +45,8 @@ type abbrevOp struct {
 type abbrev struct{ ops []abbrevOp }
 
 type bsRecord struct {
-	Code   uint64
-	Ops    []uint64
+	Code    uint64
+	Ops     []uint64
 	Abbrev  int // abbreviation id used (3 = unabbreviated)
 	BitPos  uint64
 	BlobLen int // trailing BlobLen entries of Ops are blob bytes
